@@ -48,8 +48,20 @@ def cases(draw, tier):
         rng = np.random.RandomState(seed)
         innov = rng.normal(size=n).tolist()
         nanpos = np.where(rng.uniform(size=n) < 0.1)[0].tolist()
-    return {"phi": phi, "mean": 10 * draw(norm),
-            "ini": draw(st.one_of(st.none(), norm.map(lambda v: 10 * v))),
+    mean = 10 * draw(norm)
+    ini = draw(st.one_of(st.none(), norm.map(lambda v: 10 * v)))
+    if n <= 50 and draw(st.integers(0, 4)) == 0:
+        # whole-number data and dyadic coefficients: simulated values land
+        # exactly on the mean, on zero, on each other
+        order = draw(st.integers(1, 3))
+        phi = [draw(st.sampled_from([-0.5, -0.25, 0.25, 0.5]))
+               for _ in range(order)]
+        innov = [float(draw(st.integers(-3, 3))) for _ in range(n)]
+        mean = float(draw(st.integers(-3, 3)))
+        ini = draw(st.one_of(st.none(),
+                             st.integers(-3, 3).map(float)))
+    return {"phi": phi, "mean": mean,
+            "ini": ini,
             "innov": innov, "nanpos": nanpos,
             "explicit_mean": draw(st.booleans()),
             "strided": draw(st.booleans()),
